@@ -349,3 +349,7 @@ def run(F, rep):
     # ------------------------------------------------------------------ H: no generator state survives between calls (clause shared with C12)
     import c12
     c12.rule_h1(F, rep, 'C03.H1', [st for st in c12.STATE if st[0] == 'Generator::GeneratorImpl'])
+
+    # ------------------------------------------------------------------ Q: late requalification of variable-based constants
+    import requalify
+    requalify.rule_requalify(F, rep, 'C03.Q1', 'C03.Q2')
